@@ -60,6 +60,10 @@ var c07terms = []c07term{
 	{"abort-callback", "global (L, BLOCK)\nf := func() {\n  try {\n    return BLOCK()\n  } finally {\n    L(1)\n  }\n}\nreturn f()", true, "callback"},
 	{"host-panic", "global (L, PANIC)\nf := func() {\n  x := {a: 1}\n  try {\n    return PANIC()\n  } finally {\n    x.a = 2\n  }\n}\nreturn f()", false, ""},
 	{"abort-in-nested-try", "global (L, STARTED)\nspin := func() {\n  STARTED()\n  for {\n  }\n}\nguard := func() {\n  try {\n    return spin()\n  } catch e {\n    return \"guard\"\n  }\n}\nouter := func() {\n  try {\n    return guard()\n  } finally {\n    L(\"never\")\n  }\n}\nreturn outer()", true, "loop"},
+	// the run dies inside a callee while the main function is inside a try statement
+	{"abort-in-callee-under-main-try", "global (L, STARTED)\nspin := func() {\n  STARTED()\n  for {\n  }\n}\ntry {\n  x := [1, 2, 3]\n  return spin()\n} catch e {\n  return \"main caught\"\n} finally {\n  L(\"never\")\n}", true, "loop"},
+	{"value-stack-overflow-under-main-try", "global L\nvar r\nr = func(a, b, c, d, e, f, g, h) {\n  x1 := a\n  x2 := b\n  return 1 + r(x1, x2, c, d, e, f, g, h)\n}\ntry {\n  return r(1, 2, 3, 4, 5, 6, 7, 8)\n} catch e {\n  return \"main caught\"\n}", true, ""},
+	{"value-stack-overflow-under-callee-try", "global L\nvar r\nr = func(a, b, c, d, e, f, g, h) {\n  try {\n    return 1 + r(a, b, c, d, e, f, g, h)\n  } catch e {\n    return -1\n  }\n}\nreturn r(1, 2, 3, 4, 5, 6, 7, 8)", true, ""},
 	{"discarded-selfcall-then-throw", "global L\nvar cd\ncd = func(n) {\n  if n == 0 {\n    throw error(\"bottom\")\n  }\n  cd(n - 1)\n}\nreturn cd(3)", true, ""},
 	{"open-handlers-residue", "global L\nf := func(n) {\n  try {\n    try {\n      a := [n, n, n, n]\n      if n > 0 {\n        throw error(\"open\")\n      }\n    } finally {\n      L(\"inner\")\n    }\n  } finally {\n    L(\"outer\")\n  }\n}\nreturn f(1)", true, ""},
 }
@@ -79,6 +83,11 @@ var c07observers = []string{
 	// state of an earlier run (handlers, flags) at those depths must not intercept it
 	"global L\ng := func() {\n  return [1][5]\n}\ntry {\n  g()\n} catch e {\n  L(\"main caught\", e.Name)\n}\nh := func() {\n  return 7\n}\nreturn [h(), h()]",
 	"global L\ng3 := func() {\n  throw error(\"deep\")\n}\ng2 := func() {\n  x := g3()\n  return x\n}\ng1 := func() {\n  x := g2()\n  return x\n}\ntry {\n  g1()\n} catch e {\n  L(\"main caught\", e.Message)\n}\nk := func(a) {\n  return a + 1\n}\nreturn [k(1), k(2)]",
+	// main-level exits that an own try statement does not cover: a stale handler left in frame 0 would intercept them
+	"global L\ntry {\n  L(1)\n} finally {\n  L(2)\n}\nthrow error(\"uncaught-main\")",
+	"global L\nx := [1]\nL(0)\nreturn x[3]",
+	"global L\nfor i := 0; i < 2; i++ {\n  try {\n    if i == 1 {\n      break\n    }\n  } finally {\n    L(i)\n  }\n}\ntry {\n  return 5\n} finally {\n  L(\"fin\")\n}",
+	"global L\nf := func() {\n  throw error(\"from-callee\")\n}\nL(0)\nreturn f()",
 	"global L\nvar cd\ncd = func(n) {\n  if n == 0 {\n    return \"done\"\n  }\n  cd(n - 1)\n}\nv := func() {\n  return 42\n}\nreturn [cd(0), v(), cd(2), v()]",
 }
 
